@@ -235,3 +235,47 @@ pub fn any_cone(maxdim: usize) -> SupportedConeT<f64> {
 pub fn is_nn(c: &SupportedConeT<f64>) -> bool {
     matches!(c, SupportedConeT::NonnegativeConeT(_))
 }
+
+/// elementwise equality of two CSC matrices (avoids the byte-wise memcmp loop of `==` on Vec)
+pub fn csc_eq<T: PartialEq>(a: &CscMatrix<T>, b: &CscMatrix<T>) -> bool {
+    if a.m != b.m || a.n != b.n || a.colptr.len() != b.colptr.len() || a.rowval.len() != b.rowval.len() || a.nzval.len() != b.nzval.len() {
+        return false;
+    }
+    let mut i = 0;
+    while i < a.colptr.len() {
+        if a.colptr[i] != b.colptr[i] {
+            return false;
+        }
+        i += 1;
+    }
+    let mut k = 0;
+    while k < a.rowval.len() {
+        if a.rowval[k] != b.rowval[k] || !(a.nzval[k] == b.nzval[k]) {
+            return false;
+        }
+        k += 1;
+    }
+    true
+}
+
+/// same sparsity pattern, elementwise
+pub fn same_pattern<T, U>(a: &CscMatrix<T>, b: &CscMatrix<U>) -> bool {
+    if a.m != b.m || a.n != b.n || a.colptr.len() != b.colptr.len() || a.rowval.len() != b.rowval.len() {
+        return false;
+    }
+    let mut i = 0;
+    while i < a.colptr.len() {
+        if a.colptr[i] != b.colptr[i] {
+            return false;
+        }
+        i += 1;
+    }
+    let mut k = 0;
+    while k < a.rowval.len() {
+        if a.rowval[k] != b.rowval[k] {
+            return false;
+        }
+        k += 1;
+    }
+    true
+}
